@@ -8,6 +8,7 @@
 
 mod c06;
 mod c07;
+mod c17;
 mod c18;
 mod c18_interp;
 mod engine;
@@ -110,6 +111,7 @@ fn cmd_run(args: &[String]) -> i32 {
     match id.as_str() {
         "C06" => engine::run_batch(&c06::C06, &cfg),
         "C07" => engine::run_batch(&c07::C07, &cfg),
+        "C17" => engine::run_batch(&c17::C17, &cfg),
         "C18" => engine::run_batch(&c18::C18, &cfg),
         _ => {
             eprintln!("unknown property {id}");
@@ -138,6 +140,7 @@ fn cmd_replay(args: &[String]) -> i32 {
     match trace["property"].as_str().unwrap_or("") {
         "C06" => engine::replay_file(&c06::C06, path, &trace, quiet),
         "C07" => engine::replay_file(&c07::C07, path, &trace, quiet),
+        "C17" => engine::replay_file(&c17::C17, path, &trace, quiet),
         "C18" => engine::replay_file(&c18::C18, path, &trace, quiet),
         other => {
             println!("HARNESS-ERROR unknown property {other:?} in {path}");
